@@ -44,6 +44,13 @@ except:
     Decimal = type(None)
 
 
+def _raw_cast(x, y, n_bits):
+    # raw values are kept in numpy integers only if a raw result of `n_bits` bits fits in them exactly:
+    # up to 64 bits for operands of equal signedness, up to 53 bits if they are mixed (numpy promotes int64 with uint64 to float64)
+    if n_bits >= (_n_word_max if x.signed == y.signed else 53):
+        return lambda m: np.array(m, dtype=object)
+    return lambda m: m
+
 def _get_sizing(vars, sizing, method, optimal_size=None):
         if not isinstance(vars, list):
             vars = [vars]
@@ -315,8 +322,8 @@ def add(x, y, out=None, out_like=None, sizing='optimal', method='raw', **kwargs)
     """
     """
     def _add_raw(x, y, n_frac):
-        precision_cast = (lambda m: np.array(m, dtype=object)) if n_frac >= _n_word_max else (lambda m: m)
-        return x.val * precision_cast(2**(n_frac - x.n_frac)) + y.val * precision_cast(2**(n_frac - y.n_frac))
+        raw_cast = _raw_cast(x, y, max(x.n_word + n_frac - x.n_frac, y.n_word + n_frac - y.n_frac) + 1)
+        return raw_cast(x.val) * 2**(n_frac - x.n_frac) + raw_cast(y.val) * 2**(n_frac - y.n_frac)
 
     if not isinstance(x, Fxp):
         x = Fxp(x)
@@ -336,8 +343,8 @@ def sub(x, y, out=None, out_like=None, sizing='optimal', method='raw', **kwargs)
     """
     """
     def _sub_raw(x, y, n_frac):
-        precision_cast = (lambda m: np.array(m, dtype=object)) if n_frac >= _n_word_max else (lambda m: m)
-        return x.val * precision_cast(2**(n_frac - x.n_frac)) - y.val * precision_cast(2**(n_frac - y.n_frac))
+        raw_cast = _raw_cast(x, y, max(x.n_word + n_frac - x.n_frac, y.n_word + n_frac - y.n_frac) + 1)
+        return raw_cast(x.val) * 2**(n_frac - x.n_frac) - raw_cast(y.val) * 2**(n_frac - y.n_frac)
 
     if not isinstance(x, Fxp):
         x = Fxp(x)
@@ -357,9 +364,8 @@ def mul(x, y, out=None, out_like=None, sizing='optimal', method='raw', **kwargs)
     """
     """
     def _mul_raw(x, y, n_frac):
-        precision_cast = (lambda m: np.array(m, dtype=object)) if n_frac >= _n_word_max else (lambda m: m)
-        raw_cast = (lambda m: np.array(m, dtype=object)) if (x.n_word + y.n_word) >= _n_word_max else (lambda m: m)
-        return raw_cast(x.val) * raw_cast(y.val) * precision_cast(2**(n_frac - x.n_frac - y.n_frac))
+        raw_cast = _raw_cast(x, y, x.n_word + y.n_word + max(n_frac - x.n_frac - y.n_frac, 0))
+        return raw_cast(x.val) * raw_cast(y.val) * 2**(n_frac - x.n_frac - y.n_frac)
 
     if not isinstance(x, Fxp):
         x = Fxp(x)
@@ -425,8 +431,8 @@ def truediv(x, y, out=None, out_like=None, sizing='optimal', method='raw', **kwa
         return x / y
 
     def _truediv_raw(x, y, n_frac):
-        precision_cast = (lambda m: np.array(m, dtype=object)) if n_frac >= _n_word_max else (lambda m: m)
-        return (x.val * precision_cast(2**(n_frac - x.n_frac + y.n_frac))) // y.val
+        raw_cast = _raw_cast(x, y, max(x.n_word + max(n_frac - x.n_frac + y.n_frac, 0), y.n_word))
+        return (raw_cast(x.val) * 2**(n_frac - x.n_frac + y.n_frac)) // raw_cast(y.val)
         # return np.floor_divide(np.multiply(x.val, precision_cast(2**(n_frac - x.n_frac + y.n_frac))), y.val)
 
     def _truediv_raw_complex(x, y, n_frac):
@@ -462,8 +468,8 @@ def mod(x, y, out=None, out_like=None, sizing='optimal', method='raw', **kwargs)
     def _mod_repr(x, y):
         return x % y
     def _mod_raw(x, y, n_frac):
-        precision_cast = (lambda m: np.array(m, dtype=object)) if n_frac >= _n_word_max else (lambda m: m)
-        return (x.val * precision_cast(2**(n_frac - x.n_frac))) % (y.val * precision_cast(2**(n_frac - y.n_frac)))
+        raw_cast = _raw_cast(x, y, max(x.n_word + n_frac - x.n_frac, y.n_word + n_frac - y.n_frac))
+        return (raw_cast(x.val) * 2**(n_frac - x.n_frac)) % (raw_cast(y.val) * 2**(n_frac - y.n_frac))
 
     if not isinstance(x, Fxp):
         x = Fxp(x)
